@@ -232,6 +232,11 @@ func (k *c17Case) use(kind, name string, tags map[string]string, spec c17Spec) i
 		sc = k.root.Tagged(tags)
 	}
 	cb0, errs0, calls0 := k.cbCount, len(k.cbErrs), k.obs.calls
+	// "rcd:<desc>" / "rgd:<desc>": RegisterCounter / RegisterGauge with the caller's own description
+	desc := ""
+	if strings.HasPrefix(kind, "rcd:") || strings.HasPrefix(kind, "rgd:") {
+		kind, desc = kind[:3], kind[4:]
+	}
 	var obj interface{}
 	outcome := ""
 	kindTok := kind
@@ -275,7 +280,7 @@ func (k *c17Case) use(kind, name string, tags map[string]string, spec c17Spec) i
 				outcome = "usable"
 			}
 		}
-	case "rc", "rg":
+	case "rc", "rg", "rcd", "rgd":
 		// RegisterCounter / RegisterGauge with the label names in DESCENDING order (not the order a sorted key list
 		// would have) and the default help text, then With(tags) by the caller, as for RegisterTimer
 		keys := make([]string, 0, len(tags))
@@ -287,23 +292,32 @@ func (k *c17Case) use(kind, name string, tags map[string]string, spec c17Spec) i
 		var gv *prom.GaugeVec
 		var err error
 		p, v := catch(func() {
-			if kind == "rc" {
+			switch kind {
+			case "rc":
 				cv, err = k.rep.RegisterCounter(name, keys, name+" counter")
-			} else {
+			case "rcd":
+				cv, err = k.rep.RegisterCounter(name, keys, desc)
+			case "rgd":
+				gv, err = k.rep.RegisterGauge(name, keys, desc)
+			default:
 				gv, err = k.rep.RegisterGauge(name, keys, name+" gauge")
 			}
 		})
+		if kind == "rcd" || kind == "rgd" {
+			kindTok = kind + " " + hxs(desc)
+		}
+		isC := kind == "rc" || kind == "rcd"
 		switch {
 		case p:
 			outcome = c17PanicClass(v)
 		case err != nil:
 			outcome = "regerr"
 			errs = []string{c17ErrClass(err)}
-		case kind == "rc" && cv == nil, kind == "rg" && gv == nil:
+		case isC && cv == nil, !isC && gv == nil:
 			outcome = "nilvec"
 		default:
 			p, v := catch(func() {
-				if kind == "rc" {
+				if isC {
 					obj = cv.With(tags)
 				} else {
 					obj = gv.With(tags)
@@ -700,13 +714,32 @@ func c17HistoryCase(c *Ctx, r *Rng) {
 		if (m.kind == "c" || m.kind == "g") && r.Chance(25) {
 			// the application pre-registers the vector (RegisterCounter / RegisterGauge) before the scope uses it
 			pk := "r" + m.kind
-			pid := k.use(pk, m.name, tags, m.spec)
-			transcript = append(transcript, "use "+pk+"|"+m.name+"|"+mapHex(tags))
+			full := pk
+			if r.Chance(45) {
+				// with a description of the caller's own: a counter and a gauge of one name may then carry the SAME help
+				// text, which the client library answers with AlreadyRegisteredError instead of "different help"
+				full = pk + "d:" + []string{"shared help", "", m.name + " counter", "Requests served."}[r.Intn(4)]
+				c.Cov.Hit("history.pre-registered-with-own-description")
+			}
+			pid := k.use(full, m.name, tags, m.spec)
+			transcript = append(transcript, "use "+full+"|"+m.name+"|"+mapHex(tags))
 			c.Cov.Hit("history.pre-registered-" + pk)
 			if pid >= 0 && !k.handles[pid].dead {
 				pm := m
 				pm.kind = pk
 				lives = append(lives, live{pid, pm})
+			}
+			if full != pk && r.Chance(40) {
+				// ... and the other kind under the same name, label names and description straight away
+				other := map[string]string{"rc": "rgd", "rg": "rcd"}[pk] + full[3:]
+				oid := k.use(other, m.name, tags, m.spec)
+				transcript = append(transcript, "use "+other+"|"+m.name+"|"+mapHex(tags))
+				c.Cov.Hit("history.same-description-other-kind")
+				if oid >= 0 && !k.handles[oid].dead {
+					om := m
+					om.kind = other[:2]
+					lives = append(lives, live{oid, om})
+				}
 			}
 		}
 		id := k.use(m.kind, m.name, tags, m.spec)
